@@ -492,7 +492,7 @@ class TaxonomyTree(object):
             raise RuntimeError(
                 f"{leaf_node} is not a valid {self.leaf_level} "
                 "in this taxonomy")
-        return self._data[self.leaf_level][leaf_node]
+        return list(self._data[self.leaf_level][leaf_node])
 
     def label_to_name(self, level, label, name_key='name'):
         """
